@@ -23,7 +23,44 @@ def _clean(x):
     return str(x)
 
 
-def write_replay(prop, r, src, cx):
+def write_replays(prop, refuted, src, cx):
+    """one native interpreter run for the model-derived cases of all refuted obligations, one for the corpus fallback"""
+    mod = None
+    try: mod = importlib.import_module('pvc.props.' + prop.lower())
+    except Exception: pass
+    cases = {}      # index of r -> list of cases
+    err = {}
+    for i, r in enumerate(refuted):
+        if r.get('native_case') is not None or mod is None or not hasattr(mod, 'replay_case'): continue
+        try:
+            c = mod.replay_case(r)
+            if c is not None: cases[i] = c if isinstance(c, list) else [c]
+        except Exception as x:
+            err[i] = "%s: %s" % (type(x).__name__, x)
+    flat = [(i, c) for i, cs in cases.items() for c in cs]
+    outs = {}
+    if flat:
+        # distinct cases only, at most 24 native runs per check (expensive models); obligations with equal cases share the result
+        key = lambda c: json.dumps(c, sort_keys=True, default=str)
+        uniq = {}
+        for i, c in flat:
+            if key(c) not in uniq and len(uniq) < 24: uniq[key(c)] = c
+        try:
+            ks = list(uniq)
+            out = native(dict(cmd='check', prop=prop, cases=[uniq[k] for k in ks]), timeout=3600)
+            res = dict(zip(ks, out))
+            for (i, c) in flat:
+                fails = res.get(key(c))
+                if fails and not any(str(f).startswith('CHECKER-EXCEPTION') for f in fails) and i not in outs: outs[i] = (c, fails)
+        except Exception as x:
+            for i in cases: err[i] = "%s: %s" % (type(x).__name__, x)
+    paths = []
+    for i, r in enumerate(refuted):
+        paths.append(_write_one(prop, r, src, cx, outs.get(i), len(cases.get(i, [])), err.get(i)))
+    return paths
+
+
+def _write_one(prop, r, src, cx, hit, tried, error):
     d = os.path.join(HERE, 'replays', prop)
     os.makedirs(d, exist_ok=True)
     safe = "".join(c if c.isalnum() or c in '._-' else '_' for c in r['name'])[:120]
@@ -33,42 +70,29 @@ def write_replay(prop, r, src, cx):
                solver=dict(backend=r.get('backend'), status=r['status'], detail=r.get('detail'), time=r.get('time')),
                model=_clean(r.get('model')), model_callee_results=_clean(r.get('model_apps')),
                failing_input=None, native_failures=None, command=None)
+    if error: doc['replay_error'] = error
     if r.get('native_case') is not None:          # violation found natively by a bounded stand-in
-        doc['failing_input'] = r['native_case']; doc['native_failures'] = r.get('native_failures')
-        r['replayed'] = True
-    else:
+        doc['failing_input'] = r['native_case']; doc['native_failures'] = r.get('native_failures'); doc['source'] = 'native search'
+    elif hit is not None:
+        doc['failing_input'], doc['native_failures'] = hit; doc['source'] = 'solver model'
+    elif _has_native(prop):
         try:
-            mod = importlib.import_module('pvc.props.' + prop.lower())
-            cases = []
-            if hasattr(mod, 'replay_case'):
-                c = mod.replay_case(r)
-                if c is not None: cases.extend(c if isinstance(c, list) else [c])
-            tried = 0
-            if cases:
-                out = native(dict(cmd='check', prop=prop, cases=cases))
-                tried += len(cases)
-                for c, fails in zip(cases, out):
+            if prop not in _CORPUS:          # one native corpus run per check run
+                corpus = native(dict(cmd='corpus', prop=prop, seed=getattr(cx, 'seed', 0), n=60 if cx.tier == 'quick' else 400))
+                out = native(dict(cmd='check', prop=prop, cases=corpus), timeout=3600)
+                h = None
+                for c, fails in zip(corpus, out):
                     if fails and not any(str(f).startswith('CHECKER-EXCEPTION') for f in fails):
-                        doc['failing_input'] = c; doc['native_failures'] = fails; doc['source'] = 'solver model'
-                        break
-            if doc['failing_input'] is None and _has_native(prop):
-                if prop not in _CORPUS:          # one native corpus run per check run
-                    corpus = native(dict(cmd='corpus', prop=prop, seed=getattr(cx, 'seed', 0), n=60 if cx.tier == 'quick' else 400))
-                    out = native(dict(cmd='check', prop=prop, cases=corpus))
-                    hit = None
-                    for c, fails in zip(corpus, out):
-                        if fails and not any(str(f).startswith('CHECKER-EXCEPTION') for f in fails):
-                            hit = (c, fails); break
-                    _CORPUS[prop] = (len(corpus), hit)
-                n_, hit = _CORPUS[prop]
-                tried += n_
-                if hit is not None:
-                    doc['failing_input'], doc['native_failures'] = hit; doc['source'] = 'native corpus'
-            doc['native_cases_tried'] = tried
-            r['replayed'] = doc['failing_input'] is not None
+                        h = (c, fails); break
+                _CORPUS[prop] = (len(corpus), h)
+            n_, h = _CORPUS[prop]
+            tried += n_
+            if h is not None:
+                doc['failing_input'], doc['native_failures'] = h; doc['source'] = 'native corpus'
         except Exception as x:
             doc['replay_error'] = "%s: %s" % (type(x).__name__, x)
-            r['replayed'] = False
+    doc['native_cases_tried'] = tried
+    r['replayed'] = doc['failing_input'] is not None
     if doc['failing_input'] is not None:
         doc['command'] = "python3-vt -m pvc.replay %s" % os.path.relpath(path, HERE)
     else:
